@@ -411,8 +411,9 @@ class Contract:
                  raise_when=None, setup=None, twins=None, replay=None, top=False, note='',
                  checks=None, inline_callees=(), typed=False, param_alternatives=None, gen_loops=None,
                  old_at='entry', kwargs_type=None, monitor=False, events=True, raise_effects=None,
-                 reach=True):
+                 reach=True, optional=False):
         self.target = target
+        self.optional = optional      # helper that may legitimately not exist: its contract is then dropped (recorded)
         self.props = tuple(props)
         self.params = params or {}
         self.self_type = self_type
@@ -472,11 +473,13 @@ class Registry:
         self.lemmas = []
         self.lock_levels = {}
         self.unattached_loops = []
+        self.optional_targets = {}
         self.global_overrides = {}   # (module, name) -> value for module constants built by unmodelled library calls
 
     def contract(self, target, **kw):
         c = Contract(target, **kw)
         self.contracts[target] = c
+        self.optional_targets[target] = c.optional
         return c
 
     def add_fields(self, cls, valid=None, **fields):
@@ -515,9 +518,13 @@ class Registry:
     def check_attached(self, repo):
         """Every contract / loop ordinal must attach to the current source."""
         problems = []
-        for t, c in self.contracts.items():
+        for t, c in list(self.contracts.items()):
             fi = repo.func(t)
             if fi is None:
+                if c.optional:
+                    del self.contracts[t]
+                    self.unattached_loops.append(f'optional helper {t} does not exist (its contract is unused)')
+                    continue
                 problems.append(f'contract target {t} does not exist')
                 continue
             loops = [n for n in ast.walk(fi.node) if isinstance(n, (ast.For, ast.While))]
